@@ -120,6 +120,30 @@ def run(ctx, driver):
                                   [prevh[1], h], "scale_to_hertz strictly increasing",
                                   tags=dict(scale=name, clause="mono_s2h"))
             prevh = (s, h)
+    # integer-typed arguments are legal Python numbers: the maps must not depend on the argument's type
+    for name, params, o in objs:
+        for v in (0, 1, 2, 3, 20, 21, 24, 100, 1000):
+            if name == "octave" and v < max(params[0], 1):
+                continue
+            for nm, fn in (("s2h", o.scale_to_hertz), ("h2s", o.hertz_to_scale)):
+                if name == "bark" and nm == "s2h" and v > 26:
+                    continue
+                if nm == "s2h":
+                    with np.errstate(all="ignore"):
+                        hz = float(o.scale_to_hertz(float(v)))
+                    if not (0 <= hz <= 1e5):  # outside the property's domain [0, 1e5] Hz
+                        continue
+                case = dict(scale=name, params=params, int_arg=v, fn=nm)
+                ctx.case(case, kind="int_arg")
+                try:
+                    with np.errstate(all="ignore"):
+                        a, b, c = float(fn(v)), float(fn(float(v))), float(fn(np.int64(v)))
+                except Exception as e:
+                    ctx.violation(case, "a number", "%s: %s" % (type(e).__name__, e), "integer-typed argument raises", tags=dict(scale=name, clause="int_arg_raises"))
+                    continue
+                if not (common.close(a, b, rel=1e-12) and common.close(c, b, rel=1e-12)):
+                    ctx.violation(case, b, [a, c], "the map gives the same value for 1, 1.0 and numpy.int64(1)",
+                                  tags=dict(scale=name, clause="int_arg"))
     # published anchors
     m = float(S.MelScaling().hertz_to_scale(1000.0))
     ctx.case(dict(anchor="mel1000"))
